@@ -560,7 +560,8 @@ impl C15 {
         }
         let mut cmds = normalise(cmds);
         // positional parameters must arrive the same way through every delivery mode
-        cmds.insert(0, Cmd { lines: vec!["probe args \"$#\" \"$1\" \"$2\"".to_string()], tags: vec!["args".into()], out: String::new(), heredoc: false, continuation: false, subst_tags: vec![] });
+        let at = rng.below(cmds.len() as u64 + 1) as usize;
+        cmds.insert(at, Cmd { lines: vec!["probe args \"$#\" \"$1\" \"$2\"".to_string()], tags: vec!["args".into()], out: String::new(), heredoc: false, continuation: false, subst_tags: vec![] });
         let script = script_of(&cmds);
         // chunkings: (chunk sizes, BufReader capacity)
         let line_chunks: Vec<usize> = script.split_inclusive('\n').map(|l| l.len()).collect();
